@@ -50,6 +50,7 @@ PROBES = ['smtp', 'http', 'null-sender', 'quoted-local-part', 'utf8-address',
           'starttls', 'auth', 'helo-fallback', 'connection-reuse',
           'queue-error-reply', '8bit-body', 'dot-lines', 'bare-newlines',
           'body-starts-blank', 'concurrent-requests', 'lmtp-client',
+          'binary-encoder-configured',
           'no-final-newline', 'folded-header', '7bit-conversion-refused',
           'rcpt-rejected-by-edge', 'duplicate-recipient']
 STATES_MEASURE = 'distinct (transport, withheld extensions, address kinds, body flags) tuples'
@@ -146,7 +147,8 @@ def generate(seed, tier='quick'):
             'messages': msgs,
             'seg_c': rng.choice(['whole', 'line', 'few', 'cuts']),
             'seg_s': rng.choice(['whole', 'line', 'few']),
-            'http_concurrent': rng.random() < 0.4}
+            'http_concurrent': rng.random() < 0.4,
+            'binary_encoder': transport == 'smtp' and rng.random() < 0.35}
 
 
 def execute(scn, debug=False):
@@ -252,7 +254,8 @@ def _envelope(m):
     return env
 
 
-def _judge(result, scn, j, m, env_flat, captured, res, edge_code):
+def _judge(result, scn, j, m, env_flat, captured, res, edge_code,
+           skip_content=False):
     def bad(clause, msg, **det):
         det.setdefault('transport', scn['transport'])
         result['violations'].append({'clause': clause, 'detail': det,
@@ -270,6 +273,8 @@ def _judge(result, scn, j, m, env_flat, captured, res, edge_code):
                    'accepts %r) arrived as %r' % (j, m['rcpts'], want_rcpts,
                                                   captured['rcpts']),
                    kinds=m['kinds'])
+    if skip_content:
+        return
     sent = hdr + body
     got = captured['hdr'] + captured['body']
     want = [sent]
@@ -406,6 +411,13 @@ def _smtp(world, scn, result):
                       client_class=RecClient)
         if scn['auth'] and not scn['helo_fallback']:
             kwargs['credentials'] = ('user', 'secret')
+        if scn.get('binary_encoder'):
+            # the documented option for peers without 8BITMIME: 8-bit
+            # content is re-encoded (and legitimately changes), 7-bit
+            # content must come through untouched
+            from email.encoders import encode_base64
+            kwargs['binary_encoder'] = encode_base64
+            world.probe('binary-encoder-configured')
         relay = relay_class('edge.sim', 25, **kwargs)
         results = []
         conns = 0
@@ -447,7 +459,10 @@ def _smtp(world, scn, result):
                                'with 550 but the relay reports %r' % (j, res)})
                     break
                 continue
-            _judge(result, scn, j, m, flat, captured, res, None)
+            converted = bool(scn.get('binary_encoder')) and eight and \
+                ('8BITMIME' in drop or scn['helo_fallback'])
+            _judge(result, scn, j, m, flat, captured, res, None,
+                   skip_content=converted)
             if result['violations']:
                 break
             # the relay's result carries the code the edge replied
